@@ -14,6 +14,7 @@ import (
 // and it reports false.
 // Otherwise, val is successfully sent to out, and the function reports true.
 func SendC[T any](ctx context.Context, log *slog.Logger, out chan<- T, val T, canceledDuring string) (sent bool) {
+	yield(ctx, "send", canceledDuring)
 	select {
 	case <-ctx.Done():
 		log.Info("Context canceled while "+canceledDuring, "cause", context.Cause(ctx))
@@ -82,6 +83,7 @@ func SendCLogBlocked[T any](
 // and it returns the zero value of T and reports false.
 // Otherwise, the received value is returned and the function reports true.
 func RecvC[T any](ctx context.Context, log *slog.Logger, in <-chan T, canceledDuring string) (val T, received bool) {
+	yield(ctx, "recv", canceledDuring)
 	select {
 	case <-ctx.Done():
 		log.Info("Context canceled while "+canceledDuring, "cause", context.Cause(ctx))
